@@ -5,7 +5,7 @@ Instance.Restart, Instance.Stop, Stop; sigtrap_posix.go: the SIGUSR1 handler;
 plugins.go: the event-hook registry; onevent/on.go: hooks registered during setup).
 
 Process state: the sites of the running instance, the listening descriptors the process
-holds per port, the number of registered event hooks.  Environment: the ports another
+holds per port, the number of registered event hooks, the process-wide directive table.  Environment: the ports another
 process is listening on.  A configuration is abstracted to what matters for the
 property: its sites (one server per port), the number of event hooks its `on` directives
 register, and the stage at which loading it fails by itself (a port in use is not a
@@ -62,8 +62,11 @@ structure PState where
   fds : Nat → Nat
   /-- registered event hooks -/
   hooks : Nat
+  /-- how often the process-wide table of directives (their execution order, `ValidDirectives`) has been altered since the
+  process started: no operation of the code alters it (0 = as compiled in) -/
+  dirs : Nat
 
-def PState.init : PState := { running := false, sites := [], fds := fun _ => 0, hooks := 0 }
+def PState.init : PState := { running := false, sites := [], fds := fun _ => 0, hooks := 0, dirs := 0 }
 
 def incr (f : Nat → Nat) (p : Nat) : Nat → Nat := fun x => if x = p then f x + 1 else f x
 def decr (f : Nat → Nat) (p : Nat) : Nat → Nat := fun x => if x = p then f x - 1 else f x
@@ -99,7 +102,7 @@ def start (busy : List Nat) (s : PState) (c : Cfg) : PState × Res :=
   if !st.1 then ({ s with hooks := st.2 }, .err) else
   let ll := listenLoop busy [] s.fds [] c.ports
   if !ll.1 then ({ s with fds := ll.2, hooks := st.2 - c.hooks }, .err) else
-  ({ running := true, sites := c.sites, fds := ll.2, hooks := st.2 }, .ok)
+  ({ s with running := true, sites := c.sites, fds := ll.2, hooks := st.2 }, .ok)
 
 /-- the SIGUSR1 handler: back up and purge the hooks, `Restart`, restore the hooks if it failed -/
 def reload (busy : List Nat) (s : PState) (c : Cfg) : PState × Res :=
@@ -110,7 +113,7 @@ def reload (busy : List Nat) (s : PState) (c : Cfg) : PState × Res :=
   let ll := listenLoop busy oldPorts s.fds [] c.ports
   if !ll.1 then ({ s with fds := ll.2, hooks := oldHooks }, .err) else
   -- the new instance serves; stop the old one (closes its listeners)
-  ({ running := true, sites := c.sites, fds := closeAll ll.2 oldPorts, hooks := st.2 }, .ok)
+  ({ s with running := true, sites := c.sites, fds := closeAll ll.2 oldPorts, hooks := st.2 }, .ok)
 
 def step (busy : List Nat) (s : PState) : Op → PState × Res
   | .load c => if s.running then reload busy s c else start busy s c
@@ -130,11 +133,14 @@ structure Obs where
   l1 : Nat
   l2 : Nat
   hooks : Nat
+  /-- 0 iff `ValidDirectives` is what it was when the process started -/
+  dv : Nat
   s1 : String
   s2 : String
 deriving DecidableEq, Repr
 
-def observe (s : PState) : Obs := { l1 := s.fds 1, l2 := s.fds 2, hooks := s.hooks, s1 := probe s 1, s2 := probe s 2 }
+def observe (s : PState) : Obs :=
+  { l1 := s.fds 1, l2 := s.fds 2, hooks := s.hooks, dv := s.dirs, s1 := probe s 1, s2 := probe s 2 }
 
 def runFrom (busy : List Nat) (s : PState) : List Op → List (Res × Obs)
   | [] => []
